@@ -168,10 +168,10 @@ impl<'s, M: Matcher, S: Sink> MultiLine<'s, M, S> {
                     keepgoing = match self.last_match.take() {
                         None => true,
                         Some(last_match) => {
-                            if self.sink_context(&last_match)? {
-                                self.sink_matched(&last_match)?;
-                            }
-                            true
+                            // The sink may ask to stop here too, in which
+                            // case nothing more must be reported.
+                            self.sink_context(&last_match)?
+                                && self.sink_matched(&last_match)?
                         }
                     };
                 }
